@@ -89,6 +89,9 @@ func Begin(r *Replay) {
 	cur = r
 	outcome = &Outcome{Probes: map[string]string{}}
 	envs = nil
+	if why := concretiseAttestations(r); why != "" {
+		outcome.Probes["concretiser"] = why
+	}
 }
 
 func End() *Outcome { return outcome }
